@@ -1,18 +1,24 @@
-"""C27 -- supercell symmetry and equivalence mapping are sound and complete (run-time contracts, level B)."""
+"""C27 -- supercell symmetry and equivalence mapping: soundness of equivalencemap proved (E1, level P), the rest run-time contracts (level B)."""
 from vf.common import Report, finish, SEED
 from vf.rtc import runner
-from contracts import supercell_rt as M
+from contracts import supercell_rt as M, supercell_c as C
+from vf.pyvc import driver
 
 
 def main(tier):
     rep = Report('C27', tier)
     n = len(M.super_configs(tier))
     runner.run(rep, 'Supercell::symmetry-and-equivalence-contract', M.w_supercell, [(i, tier, SEED) for i in range(n)], 'onsager/supercell.py::Supercell.equivalencemap')
+    # soundness of equivalencemap (level P): the search loop, the occupation test and the construction of the mapping, for every supercell
+    # size, every group and every pair of occupations
+    driver.verify_function(C.EquivalenceMap(), rep, tier)
+    for a in C.EquivalenceMap.ABSTRACTED: rep.assume('Supercell.equivalencemap contract, abstracted: ' + a)
+    rep.assume('Supercell.equivalencemap contract, precondition: every operation of self.G carries a one-to-one map of range(len(occ)) into itself (checked at run time by this property, clause "operations are site permutations"); both supercells list the same number of species')
     from vf import extract
     for q in ('Supercell.gengroup', 'Supercell.maketrans', 'Supercell.equivalencemap', 'Supercell.__imul__', 'Supercell.reorder', 'Supercell.defectindices'):
         f = extract.get('onsager/supercell.py', q); rep.under_contract('onsager/supercell.py::' + q, 'onsager/supercell.py', f.l0, f.l1)
     rep.gaps.append('five (quick) / eight (thorough) supercells incl. non-diagonal matrices, interstitial sublattice and several solutes; seeded occupations with 1-3 defects; '
-                    '__imul__ and reorder are proved in C28; equivalencemap itself (dictionary of defect names, for/continue/break search) is outside the encoder subset')
+                    '__imul__ and reorder are proved in C28; equivalencemap: soundness of every returned answer is proved (E1) from `mapping = None` on, completeness (an equivalent pair is found) and the defect-count pre-filter are run-time only')
     return finish(rep, 'exploration',
                   'Run-time contracts: every supercell operation is a site permutation consistent with the geometry and the sublattices; equivalencemap returns an '
                   'operation and reordering that transform one occupation into the other exactly when brute force over the group finds one, and None otherwise.',
